@@ -215,15 +215,37 @@ Fixpoint dedupe (l : list path) : list path :=
   | p :: r => if mem_path p r then dedupe r else p :: dedupe r
   end.
 
+(* Path(component_dir).resolve(): the configured spelling is canonicalised.  A [PAbs p] carries the spelling as
+   written, component by component, "." and ".." included; resolve() is modelled as segment folding ("." dropped,
+   ".." removes the component before it; at the sandbox root ".." stays there - the generator never climbs above
+   it).  Symbolic links are outside the model (the harness hands a symlinked directory to the model as its
+   target); a trailing slash and empty segments never reach resolve(): Path() drops them. *)
+Fixpoint fold_segs (acc p : path) : path :=     (* acc = components so far, innermost first *)
+  match p with
+  | [] => rev acc
+  | s :: r => if str_eqb s [DOT] then fold_segs acc r
+              else if str_eqb s DOTDOT then fold_segs (tl acc) r
+              else fold_segs (s :: acc) r
+  end.
+Definition resolve_path (p : path) : path := fold_segs [] p.
+
 Fixpoint valid_dirs (l : list raw_entry) : res (list path) :=
   match l with
   | [] => Ok []
   | e :: r => match unwrap e with
               | PNotPath => valid_dirs r
               | PRel => Raise ValueError
-              | PAbs p => bind (valid_dirs r) (fun r' => Ok (p :: r'))
+              | PAbs p => bind (valid_dirs r) (fun r' => Ok (resolve_path p :: r'))
               end
   end.
+
+(* the same configuration entry in canonical spelling (and without the tuple wrapper) *)
+Definition canon_pval (v : pval) : pval := match v with PAbs p => PAbs (resolve_path p) | _ => v end.
+Definition canon_entry (e : raw_entry) : raw_entry := RPlain (canon_pval (unwrap e)).
+Definition canon_world (w : world) : world :=
+  {| w_root := w_root w; w_base := w_base w;
+     w_dirs := option_map (map canon_entry) (w_dirs w); w_static := map canon_entry (w_static w);
+     w_app_dirs := w_app_dirs w; w_apps := w_apps w |}.
 
 Definition exists_at (root : fs) (p : path) : bool :=
   match node_at root p with Some _ => true | None => false end.
